@@ -23,10 +23,11 @@ import (
 // default build and with the decimal_pure_go / math_big_pure_go builds.
 
 type vexecProc struct {
-	name string
-	cmd  *exec.Cmd
-	in   io.WriteCloser
-	out  *bufio.Reader
+	name   string
+	cmd    *exec.Cmd
+	in     io.WriteCloser
+	out    *bufio.Reader
+	stderr *tailBuffer
 }
 
 var (
@@ -36,23 +37,53 @@ var (
 	vexecMu    sync.Mutex
 )
 
+func startOneVexec(name string) (*vexecProc, error) {
+	path := os.Getenv("VERIF_VEXEC_" + name)
+	if path == "" {
+		return nil, fmt.Errorf("VERIF_VEXEC_%s not set", name)
+	}
+	cmd := exec.Command(path)
+	in, _ := cmd.StdinPipe()
+	out, _ := cmd.StdoutPipe()
+	tail := &tailBuffer{}
+	cmd.Stderr = tail
+	if err := cmd.Start(); err != nil {
+		return nil, err
+	}
+	return &vexecProc{name: strings.ToLower(name), cmd: cmd, in: in, out: bufio.NewReaderSize(out, 1<<20), stderr: tail}, nil
+}
+
 func startVexec() {
 	for _, name := range []string{"ASM", "PUREGO", "PUREGO2"} {
-		path := os.Getenv("VERIF_VEXEC_" + name)
-		if path == "" {
-			vexecErr = fmt.Errorf("VERIF_VEXEC_%s not set", name)
-			return
-		}
-		cmd := exec.Command(path)
-		in, _ := cmd.StdinPipe()
-		out, _ := cmd.StdoutPipe()
-		cmd.Stderr = os.Stderr
-		if err := cmd.Start(); err != nil {
+		p, err := startOneVexec(name)
+		if err != nil {
 			vexecErr = err
 			return
 		}
-		vexecProcs = append(vexecProcs, &vexecProc{name: strings.ToLower(name), cmd: cmd, in: in, out: bufio.NewReaderSize(out, 1<<20)})
+		vexecProcs = append(vexecProcs, p)
 	}
+}
+
+// tailBuffer keeps the last few KiB written to it (an executor's stderr).
+type tailBuffer struct {
+	mu sync.Mutex
+	b  []byte
+}
+
+func (t *tailBuffer) Write(p []byte) (int, error) {
+	t.mu.Lock()
+	defer t.mu.Unlock()
+	t.b = append(t.b, p...)
+	if len(t.b) > 1<<14 {
+		t.b = t.b[len(t.b)-1<<13:]
+	}
+	return len(p), nil
+}
+
+func (t *tailBuffer) String() string {
+	t.mu.Lock()
+	defer t.mu.Unlock()
+	return string(t.b)
 }
 
 func (p *vexecProc) exec(line []byte) (string, error) {
@@ -61,6 +92,25 @@ func (p *vexecProc) exec(line []byte) (string, error) {
 	}
 	s, err := p.out.ReadString('\n')
 	return s, err
+}
+
+// crashed reports how a dead executor ended: crash is true when the Go runtime of the executor itself gave up
+// (exit status 2 with a "fatal error" / "panic" / signal report on stderr), which is the library's doing under that
+// build; anything else (killed from outside, out of memory) is the harness's problem.
+func (p *vexecProc) crashed() (crash bool, report string) {
+	p.in.Close()
+	err := p.cmd.Wait()
+	report = p.stderr.String()
+	first := report
+	if i := strings.Index(first, "\n\n"); i > 0 {
+		first = first[:i]
+	}
+	first = strings.ReplaceAll(h.FirstN(first, 400), "\n", " | ")
+	if ee, ok := err.(*exec.ExitError); ok && ee.ExitCode() == 2 && !strings.Contains(report, "out of memory") &&
+		(strings.Contains(report, "fatal error:") || strings.Contains(report, "panic:") || strings.Contains(report, "signal SIG")) {
+		return true, first
+	}
+	return false, fmt.Sprintf("%v: %s", err, first)
 }
 
 type C07ProgCase struct {
@@ -104,7 +154,17 @@ func checkC07Prog(c C07ProgCase, o *h.Obs) *h.Fail {
 	for i, p := range vexecProcs {
 		s, err := p.exec(line)
 		if err != nil {
-			return h.Failf("INFRA-vexec", "executor %s died: %v", p.name, err)
+			crash, report := p.crashed()
+			// a fresh executor for the cases that follow (shrinking included)
+			if np, e := startOneVexec(strings.ToUpper(p.name)); e == nil {
+				vexecProcs[i] = np
+			} else {
+				vexecErr = e
+			}
+			if crash {
+				return h.Failf("executor-crash", "the %s build crashed while running the program (the other builds are not asked): %s", p.name, report)
+			}
+			return h.Failf("INFRA-vexec", "executor %s died: %v: %s", p.name, err, report)
 		}
 		outs[i] = s
 	}
